@@ -39,12 +39,12 @@ func (s *SearchParams) init(query string) {
 			continue
 		}
 		kv := strings.SplitN(q, "=", 2)
-		name := s.url.parser.DecodePercentEncoded(kv[0])
-		name = strings.ReplaceAll(name, "+", " ")
+		name := strings.ReplaceAll(kv[0], "+", " ")
+		name = s.url.parser.DecodePercentEncoded(name)
 		nvp := &NameValuePair{Name: name}
 		if len(kv) == 2 {
-			value := s.url.parser.DecodePercentEncoded(kv[1])
-			value = strings.ReplaceAll(value, "+", " ")
+			value := strings.ReplaceAll(kv[1], "+", " ")
+			value = s.url.parser.DecodePercentEncoded(value)
 			nvp.Value = value
 		}
 		s.params = append(s.params, nvp)
